@@ -94,22 +94,23 @@ InRectStrict(s, p) == LET u == RectU(s, p) IN Abs(u[1]) <  s.rot[3] * s.l /\ Abs
 InDisc(s, p)       == Len2(s.c, p) <= s.r * s.r
 
 (* ------------------------------ part 2: a shape and the set it denotes ------------------------------- *)
-(* ContainsPoint3: the point-containment test against the DEFINING set                                  *)
-PrimContains3(s, p) ==
+(* ContainsPoint3: the point-containment test against the DEFINING set.  noisy: the shape's parameters went through a  *)
+(* rotation by a float angle (translate_rotate with a non-zero quarter turn): points exactly ON the boundary -> band (B2) *)
+PrimContains3(s, p, noisy) ==
     CASE s.k = "rect" -> IF InRectStrict(s, p) THEN "T" ELSE IF ~InRect(s, p) THEN "F"
-                         ELSE IF ExactRot(s.rot) THEN "T" ELSE "EITHER"                           \* band (B2)
-      [] s.k = "disc" -> B3(InDisc(s, p))                                                         \* exact, no band
-      [] s.k = "poly" -> B3(InPoly(s.v, p))
-ContainsPoint3(s, p) == IF s.k = "group" THEN Any3({PrimContains3(s.ms[i], p) : i \in DOMAIN s.ms})
-                        ELSE PrimContains3(s, p)
+                         ELSE IF ExactRot(s.rot) /\ ~noisy THEN "T" ELSE "EITHER"                \* band (B2)
+      [] s.k = "disc" -> IF noisy /\ Len2(s.c, p) = s.r * s.r THEN "EITHER" ELSE B3(InDisc(s, p)) \* exact, no band unless noisy
+      [] s.k = "poly" -> IF noisy /\ OnBoundary(s.v, p) THEN "EITHER" ELSE B3(InPoly(s.v, p))
+ContainsPoint3(s, p, noisy) == IF s.k = "group" THEN Any3({PrimContains3(s.ms[i], p, noisy) : i \in DOMAIN s.ms})
+                               ELSE PrimContains3(s, p, noisy)
 (* Exported3: the exported planar geometry covers the point; discs are exported as polygonal approximations *)
 DiscBand(s, p) == LET nd == <<Len2(s.c, p), 1>>  r2 == s.r * s.r IN
                   IF LeqFrac(nd, 9801, 10000, r2) THEN "T"                                        \* d <= 0.99 r
                   ELSE IF LeqFrac(nd, 10201, 10000, r2) THEN "EITHER" ELSE "F"                    \* band (B1); d > 1.01 r
-PrimExported3(s, p) == IF s.k = "disc" THEN DiscBand(s, p) ELSE PrimContains3(s, p)
-Exported3(s, p) == IF s.k = "group" THEN Any3({PrimExported3(s.ms[i], p) : i \in DOMAIN s.ms})
-                   ELSE PrimExported3(s, p)
-InAnyBand(s, p) == Exported3(s, p) = "EITHER" \/ ContainsPoint3(s, p) = "EITHER"
+PrimExported3(s, p, noisy) == IF s.k = "disc" THEN DiscBand(s, p) ELSE PrimContains3(s, p, noisy)
+Exported3(s, p, noisy) == IF s.k = "group" THEN Any3({PrimExported3(s.ms[i], p, noisy) : i \in DOMAIN s.ms})
+                          ELSE PrimExported3(s, p, noisy)
+InAnyBand(s, p, noisy) == Exported3(s, p, noisy) = "EITHER" \/ ContainsPoint3(s, p, noisy) = "EITHER"
 
 (* ------------------------------ part 1: lanelet polygon against point / shape ------------------------ *)
 (* noisy: the lanelet vertices went through a rotation by a float angle (band (B2))                     *)
@@ -194,10 +195,10 @@ LawRectRing(s, p)       == /\ InRect(s, p) <=> InPoly(RectRing(s), ScaleP(p, s.r
                            /\ InRectStrict(s, p) <=> InPolyStrict(RectRing(s), ScaleP(p, s.rot[3]))
 LawMeetSym(P, Q)        == PolyMeet(P, Q) = PolyMeet(Q, P) /\ PolyStrong(P, Q) = PolyStrong(Q, P)
 LawStrongMeet(P, Q)     == PolyStrong(P, Q) => PolyMeet(P, Q)
-LawPointShape(P, s, p)  == (ContainsPoint3(s, p) = "T" /\ InPoly(P, p)) => ShapeRel(P, s, FALSE) # "F" \* a common point: they meet
+LawPointShape(P, s, p)  == (ContainsPoint3(s, p, FALSE) = "T" /\ InPoly(P, p)) => ShapeRel(P, s, FALSE) # "F" \* a common point: they meet
 LawMotion(m, net, p)    == ByPosition(MoveNet(m, net), Move(m, p)) = ByPosition(net, p)           \* predicates are motion invariant
 LawMotionShape(m, net, s) == ByShape(MoveNet(m, net), MoveShape(m, s)) \subseteq MaySet(net, LAMBDA P : ShapeRel(P, s, FALSE))
-LawBands(P, s, p)       == /\ (s.k # "disc" /\ (s.k = "rect" => ExactRot(s.rot))) => ~InAnyBand(s, p) /\ ShapeRel(P, s, FALSE) # "EITHER"
-                           /\ ContainsPoint3(s, p) = "EITHER" => s.k = "rect" /\ ~ExactRot(s.rot)
-LawDiscExport(s, p)     == Rank(Exported3(s, p)) <= Rank(ContainsPoint3(s, p)) \/ Exported3(s, p) = "EITHER"  \* export never exceeds the disc
+LawBands(P, s, p)       == /\ (s.k # "disc" /\ (s.k = "rect" => ExactRot(s.rot))) => ~InAnyBand(s, p, FALSE) /\ ShapeRel(P, s, FALSE) # "EITHER"
+                           /\ ContainsPoint3(s, p, FALSE) = "EITHER" => s.k = "rect" /\ ~ExactRot(s.rot)
+LawDiscExport(s, p)     == Rank(Exported3(s, p, FALSE)) <= Rank(ContainsPoint3(s, p, FALSE)) \/ Exported3(s, p, FALSE) = "EITHER"  \* export never exceeds the disc
 =================================================================================
